@@ -182,7 +182,7 @@ pub fn run_c01(out: &mut Out, seed: u64, thorough: bool) {
 const CNT: u8 = 0x90;
 
 /// Main program + register-preserving ISR that bumps RAM[CNT]. Returns (image, address of the final spin loop).
-fn c04_program(rng: &mut Rng, with_di: bool) -> (Vec<u8>, u8) {
+pub fn c04_program(rng: &mut Rng, with_di: bool) -> (Vec<u8>, u8) {
     let mut p: Vec<u8> = vec![0x20, 0x0A]; // JR MAIN (MAIN at 0x0C)
     // ISR at 2
     p.extend(&[0x10, 0xFF, CNT, 0x10, 0x44, 0xF0, 0x1F, CNT, 0x14, 0x2C]);
@@ -222,6 +222,7 @@ fn c04_program(rng: &mut Rng, with_di: bool) -> (Vec<u8>, u8) {
     for op in [0x30u8, 0x34, 0x38, 0x3C, 0x40, 0x44, 0x48, 0x50, 0x04] {
         tour.push(vec![op + rng.byte() % 3]);
     }
+    tour.push(vec![0x02]); // NOP: page 0 has its own `int:` word
     tour.push(vec![0x21 + rng.byte() % 7, 0x00]); // a conditional relative jump to the next instruction
     while !tour.is_empty() {
         let i = rng.below(tour.len() as u64) as usize;
